@@ -31,8 +31,11 @@ let () =
                      Hashtbl.replace tbl (int_of_nat (enc nn p)) ()
                  | _ -> failwith "pt") pts;
              let ins v = Hashtbl.mem tbl (int_of_nat v) in
-             let m = simplex_mesh nn ins in
-             out (Printf.sprintf "SM tris=%d" (List.length m))
+             (* simplex_mesh nn ins = mesh ins (flat_map (simplex_tets nn) (all_edges nn)), and mesh is itself a
+                flat_map over the tets: its length is the sum over the lattice edges.  Summing edge by edge keeps the
+                unary vertex numbers of one edge alive at a time (the whole mesh at once needs gigabytes). *)
+             let total = List.fold_left (fun acc (a, p) -> acc + List.length (mesh ins (simplex_tets nn a p))) 0 (all_edges nn) in
+             out (Printf.sprintf "SM tris=%d" total)
          | _ -> out ("ERR unknown " ^ c)
        with e -> out ("ERR " ^ Printexc.to_string e)))
   done with End_of_file -> ()
